@@ -76,8 +76,36 @@ def case(col, dname, how, t_points):
     col.add(None)
 
 
+def chained_case(col, first):
+    """x ~ Exponential re-parameterised, then the NEW variable re-parameterised again with Shift(0.3): x must stay b1(b2(innermost))"""
+    rate = lsl.Var(np.float32(1.7), name="rate")
+    x = lsl.param(np.float32(0.8), lsl.Dist(tfd.Exponential, rate=rate), name="x")
+    y = lsl.obs(np.float32(0.1), lsl.Dist(tfd.Normal, loc=x, scale=1.0), name="y")
+    t1 = x.transform(tfb.Exp()) if first == "instance" else x.transform()
+    t2 = t1.transform(tfb.Shift(np.float32(0.3)))
+    model = lsl.GraphBuilder().add(y).build_model()
+    bad = None
+    if not all(n in model.vars for n in ("x", t1.name, t2.name)):
+        bad = f"variables of the transformation chain missing from the model: {sorted(model.vars)}"
+    else:
+        b1 = tfb.Exp() if first == "instance" else tfd.Exponential(1.7).experimental_default_event_space_bijector()
+        for tv in (-1.0, 0.2, 1.4):
+            model.vars[t2.name].value = np.float32(tv)
+            want = float(b1.forward(np.float32(tv) + np.float32(0.3)))
+            got = float(model.vars["x"].value)
+            if not np.isclose(got, want, rtol=1e-5):
+                bad = f"innermost variable = {tv}: x = {got}, but b1(b2(innermost)) = {want}"
+                break
+    col.add(None if bad is None else {"sig": "native::transform::chained", "what": bad, "input": {"first_transformation": first, "second": "Shift(0.3) instance"}})
+
+
 def bounded(tier, seed):
     col = util.Collector()
+    for first in ("instance", "default"):
+        try:
+            chained_case(col, first)
+        except Exception as e:
+            col.add({"sig": f"native::transform::exception::{type(e).__name__}", "what": f"chained/{first}: {str(e)[:200]}", "input": {"first_transformation": first}})
     ts = (-1.2, 0.0, 0.9) if tier == "quick" else (-3.0, -1.2, -0.1, 0.0, 0.4, 0.9, 2.5)
     hows = ("default", "auto", "instance_exp", "class_scale_var", "deprecated_default", "deprecated_softplus")
     n = 0
@@ -93,5 +121,5 @@ def bounded(tier, seed):
     return {"evaluations": col.evals, "distinct_nontrivial": n,
             "rule": (f"BOUNDED: {len(DISTS)} distributions (Exponential, HalfCauchy, InverseGamma, Gamma, Beta, Uniform with variable bounds) x entry points (default, auto-transform, "
                      f"Exp instance, Scale class with a model variable as argument, deprecated builder method) at {len(ts)} unconstrained points, before and after doubling a distribution "
-                     "parameter and changing the bijector argument: value of the original variable = b(t), new log-density = p(b(t)) + log|db/dt| computed directly with TFP."),
+                     "parameter and changing the bijector argument: value of the original variable = b(t), new log-density = p(b(t)) + log|db/dt| computed directly with TFP; a chain of two transformations (the new variable transformed again)."),
             "samples": [{"distribution": "Uniform", "entry": "default"}], "exhaustive": False, "violations": col.violations}
